@@ -189,3 +189,95 @@ Example c08_example :
   option_map (map Qred) (reactive_populations pi q) = Some [0; 55#79; 24#79; 0; 0].
 Proof. vm_compute. repeat split; reflexivity. Qed.
 Print Assumptions c08_example.
+
+(* ------------------------------------------------------------------------------------------------
+   Round 2: tie to the source.  Gen/FluxGen.v is regenerated on every check from the CURRENT
+   enspara/tpt/tpt.py by translator/tr_flux.py (vocabulary: Base/FluxBase.v).  The theorems below say
+   that the regenerated array expressions ARE the model the theorems above speak about; a transposed
+   broadcast, a lost diagonal reset, a flipped sign or `reverse = forward` in the source breaks them. *)
+From EV Require Import FluxBase FluxGen FluxGenProofs.
+
+(* _get_data_from_tprob: n_states = len(populations), backward committor = 1 - forward committor *)
+Theorem c08_gen_get_data : forall pi q, gen_get_data pi q = (pi, length pi, q, reverse_committors q).
+Proof. exact gen_get_data_eq. Qed.
+Print Assumptions c08_gen_get_data.
+
+(* reactive_fluxes, dense branch: `tprob * ((populations * reverse)[:, None]) * forward`, diagonal reset *)
+Theorem c08_gen_reactive_fluxes_dense : forall T pi q,
+  reactive_fluxes T pi q = if shapes_ok T pi q then Some (gen_reactive_fluxes_dense T pi q) else None.
+Proof. exact gen_reactive_fluxes_dense_correct. Qed.
+Print Assumptions c08_gen_reactive_fluxes_dense.
+
+(* reactive_fluxes, sparse branch: `.multiply((populations * reverse)[:, None]).multiply(forward)`, reset *)
+Theorem c08_gen_reactive_fluxes_sparse : forall T pi q,
+  reactive_fluxes T pi q = if shapes_ok T pi q then Some (gen_reactive_fluxes_sparse T pi q) else None.
+Proof. exact gen_reactive_fluxes_sparse_correct. Qed.
+Print Assumptions c08_gen_reactive_fluxes_sparse.
+
+(* net_fluxes, dense branch: `fluxes - fluxes.T`, then `net[np.where(net < 0)] = 0` *)
+Theorem c08_gen_net_fluxes_dense : forall T pi q,
+  net_fluxes T pi q = if shapes_ok T pi q then Some (gen_net_fluxes_dense T pi q) else None.
+Proof. exact gen_net_fluxes_dense_correct. Qed.
+Print Assumptions c08_gen_net_fluxes_dense.
+
+(* net_fluxes, sparse branch: `(fluxes - fluxes.T).maximum(0)` *)
+Theorem c08_gen_net_fluxes_sparse : forall T pi q,
+  net_fluxes_sparse T pi q = if shapes_ok T pi q then Some (gen_net_fluxes_sparse T pi q) else None.
+Proof. exact gen_net_fluxes_sparse_correct. Qed.
+Print Assumptions c08_gen_net_fluxes_sparse.
+
+(* reactive_populations: `populations * forward * reverse` divided by its sum *)
+Theorem c08_gen_reactive_populations : forall pi q,
+  reactive_populations pi q =
+  if (1 <=? length pi)%nat && (length q =? length pi)%nat
+  then (if Qeq_bool (qsum (densities pi q)) 0 then None else Some (gen_reactive_populations pi q))
+  else None.
+Proof. exact gen_reactive_populations_correct. Qed.
+Print Assumptions c08_gen_reactive_populations.
+
+(* the vocabulary: broadcasting by index agrees with the model's zipping on matching shapes; the reset over
+   arange(n) is the full diagonal reset; .T is the n x n transpose; both selections are the positive part *)
+Theorem c08_gen_vocabulary :
+  (forall w M, length w = length M -> row_scale w M = scale_rows w M) /\
+  (forall v M, (forall i, (i < length M)%nat -> length (nth i M []) = length v) -> col_scale v M = scale_cols v M) /\
+  (forall n M, (length M <= n)%nat -> zero_diag_n n M = zero_diag M) /\
+  (forall n M, length M = n -> (forall i, (i < n)%nat -> length (nth i M []) = n) -> transpose_m M = transpose n M) /\
+  (forall M, set_where_lt 0 0 M = pos_part_m M) /\ (forall M, mat_maximum 0 M = pos_part_m M).
+Proof. exact gen_vocabulary. Qed.
+Print Assumptions c08_gen_vocabulary.
+
+(* Clause "flux = pi_i q-_i T_ij q+_j off the diagonal, zero on it", on the regenerated text, both containers *)
+Theorem c08_gen_flux_definition : forall T pi q, shapes_ok T pi q = true ->
+  forall i j, (i < length pi)%nat -> (j < length pi)%nat ->
+  ent (gen_reactive_fluxes_dense T pi q) i j ==
+    (if (i =? j)%nat then 0 else vnth pi i * (1 - vnth q i) * ent T i j * vnth q j) /\
+  ent (gen_reactive_fluxes_sparse T pi q) i j ==
+    (if (i =? j)%nat then 0 else vnth pi i * (1 - vnth q i) * ent T i j * vnth q j).
+Proof. exact gen_flux_entry. Qed.
+Print Assumptions c08_gen_flux_definition.
+
+(* Clause "net flux is the positive part of flux minus its transpose", on the regenerated text *)
+Theorem c08_gen_net_is_positive_part : forall T pi q, shapes_ok T pi q = true ->
+  forall i j, (i < length pi)%nat -> (j < length pi)%nat ->
+  ent (gen_net_fluxes_dense T pi q) i j =
+    pos_part (ent (gen_reactive_fluxes_dense T pi q) i j - ent (gen_reactive_fluxes_dense T pi q) j i) /\
+  ent (gen_net_fluxes_sparse T pi q) i j =
+    pos_part (ent (gen_reactive_fluxes_sparse T pi q) i j - ent (gen_reactive_fluxes_sparse T pi q) j i).
+Proof. exact gen_net_entry. Qed.
+Print Assumptions c08_gen_net_is_positive_part.
+
+(* Non-vacuity of the regenerated text: on the example chain above it computes the same net flux and
+   reactive populations *)
+Example c08_gen_example :
+  let T := [[1#2; 1#4; 0; 1#4; 0]; [1#7; 3#7; 2#7; 0; 1#7]; [0; 1#3; 1#6; 1#2; 0];
+            [1#8; 0; 3#8; 1#4; 1#4]; [0; 1#4; 0; 1#2; 1#4]] in
+  let pi := [4#29; 7#29; 6#29; 8#29; 4#29] in
+  let q := [0; 11#16; 7#8; 1; 1] in
+  shapes_ok T pi q = true /\
+  map (map Qred) (gen_net_fluxes_dense T pi q) =
+    [[0; 11#464; 0; 1#29; 0]; [0; 0; 3#232; 0; 5#464]; [0; 0; 0; 3#232; 0];
+     [0; 0; 0; 0; 0]; [0; 0; 0; 0; 0]] /\
+  map (map Qred) (gen_net_fluxes_sparse T pi q) = map (map Qred) (gen_net_fluxes_dense T pi q) /\
+  map Qred (gen_reactive_populations pi q) = [0; 55#79; 24#79; 0; 0].
+Proof. vm_compute. repeat split; reflexivity. Qed.
+Print Assumptions c08_gen_example.
